@@ -36,7 +36,12 @@ model describes the code as it is and as it would be after a fix:
   store a file without its executable bit;
 * `freshExec = false`: `Merge3Merger._entries3` takes THIS's executable bit
   from the working tree's recorded inventory entry (`rec`, possibly stale)
-  instead of from disk.
+  instead of from disk;
+* `pathCheck = false`: `shelve_deletion` takes whatever is on disk at the
+  deleted file's old path for a kept copy of it (`existing_path`), also when
+  that path is now held by another versioned id (`reoccupied`): the work
+  transform then versions that id's trans-id a second time — refused or
+  applied with an inconsistent inventory (`ShelveErr.reoccupied`).
 -/
 namespace BreezyVerif.C15
 
@@ -62,12 +67,13 @@ abbrev Tree := Id → Option Entry
 structure Variant where
   keepExec : Bool
   freshExec : Bool
+  pathCheck : Bool
   deriving DecidableEq, Repr
 
 /-- the code as it is -/
-def Variant.current : Variant := ⟨false, false⟩
-/-- the code with both executable-bit defects repaired -/
-def Variant.fixed : Variant := ⟨true, true⟩
+def Variant.current : Variant := ⟨false, false, false⟩
+/-- the code with the three defects repaired -/
+def Variant.fixed : Variant := ⟨true, true, true⟩
 
 /-- selection of the content change of one id -/
 inductive CSel where
@@ -288,11 +294,30 @@ def wf (ids : List Id) (t : Tree) : Bool :=
 inductive ShelveErr where
   /-- `work_transform.apply()` raises MalformedTransform -/
   | malformed
+  /-- the occupant's trans-id is versioned a second time under the deleted id: depending on what
+  else the transform contains this is refused ("versioning no contents", InconsistentDelta,
+  ImmortalPendingDeletion) or applied, leaving an inventory with two entries for one path — never
+  a correct shelve -/
+  | reoccupied
   deriving DecidableEq, Repr
+
+/-- the id that holds, in the working tree, the (parent, name) a deleted id had in the basis -/
+def occupant (ids : List Id) (b w : Tree) (i : Id) : Option Id :=
+  match b i, w i with
+  | some be, none => ids.find? fun j => j != i && match w j with
+      | some we => we.parent == be.parent && we.name == be.name
+      | none => false
+  | _, _ => none
+
+/-- selected deletions whose old path is held by another versioned id, with that id -/
+def reoccupied (ids : List Id) (s : TSel) (b w : Tree) : List (Id × Id) :=
+  ids.filterMap fun i => if (s i).whole then (occupant ids b w i).map fun j => (i, j) else none
 
 /-- `ShelfManager.shelve_changes`: the new working tree and the stored tree -/
 def shelve (v : Variant) (ids : List Id) (s : TSel) (b w : Tree) : Except ShelveErr (Tree × Tree) :=
-  if wf ids (workTree v s b w) then .ok (workTree v s b w, shelfTree v s b w) else .error .malformed
+  if !v.pathCheck && !(reoccupied ids s b w).isEmpty then .error .reoccupied
+  else if wf ids (workTree v s b w) then .ok (workTree v s b w, shelfTree v s b w)
+  else .error .malformed
 
 /-- the selection is closed under its dependencies: both the remaining working
 tree and the stored tree are trees (a directory is added before / removed after
@@ -302,15 +327,14 @@ def closed (v : Variant) (ids : List Id) (s : TSel) (b w : Tree) : Bool :=
 
 /-! ### change sets -/
 
-/-- the atomic differences between two entries of one id -/
+/-- the atomic differences between two entries of one id, except the text chunks -/
 structure Delta where
   /-- present on one side only -/
   whole : Bool
   pos : Bool
-  /-- kind or segmentation differs: the content is replaced wholesale -/
+  /-- kind or segmentation differs: the content is replaced wholesale (the
+  executable bit is then part of this change) -/
   kind : Bool
-  /-- same kind and segmentation: the chunks that differ -/
-  chunks : List Bool
   exec : Bool
   deriving DecidableEq, Repr
 
@@ -319,17 +343,20 @@ def chunkMask : List Nat → List Nat → List Bool
   | _, _ => []
 
 def delta : Option Entry → Option Entry → Delta
-  | none, none => ⟨false, false, false, [], false⟩
-  | none, some _ => ⟨true, false, false, [], false⟩
-  | some _, none => ⟨true, false, false, [], false⟩
+  | none, none => ⟨false, false, false, false⟩
+  | none, some _ => ⟨true, false, false, false⟩
+  | some _, none => ⟨true, false, false, false⟩
   | some x, some y =>
-    let k := x.kind != y.kind || x.content.length != y.content.length
-    ⟨false, x.parent != y.parent || x.name != y.name, k,
-     if k then [] else chunkMask x.content y.content,
-     -- across a kind change the executable bit is part of the kind change
+    ⟨false, x.parent != y.parent || x.name != y.name,
+     x.kind != y.kind || x.content.length != y.content.length,
      x.kind == y.kind && x.exec != y.exec⟩
 
-def Delta.isEmpty (d : Delta) : Bool := !d.whole && !d.pos && !d.kind && d.chunks.all (!·) && !d.exec
+/-- the chunks that differ, for two entries of the same kind and segmentation -/
+def contentMask : Option Entry → Option Entry → List Bool
+  | some x, some y => chunkMask x.content y.content
+  | _, _ => []
+
+def Delta.isEmpty (d : Delta) : Bool := !d.whole && !d.pos && !d.kind && !d.exec
 
 def maskAnd : List Bool → List Bool → List Bool
   | a :: as, b :: bs => (a && b) :: maskAnd as bs
@@ -354,13 +381,11 @@ def CSel.any (c : CSel) : Bool :=
 
 /-- the part of a change set that the selection names (an executable-bit change is never shelvable) -/
 def Delta.restrict (d : Delta) (s : Sel) : Delta :=
-  ⟨d.whole && s.whole, d.pos && s.rename, d.kind && s.content.any,
-   maskAnd d.chunks (s.content.bits d.chunks.length), false⟩
+  ⟨d.whole && s.whole, d.pos && s.rename, d.kind && s.content.any, false⟩
 
 /-- the part the selection leaves -/
 def Delta.remove (d : Delta) (s : Sel) : Delta :=
-  ⟨d.whole && !s.whole, d.pos && !s.rename, d.kind && !s.content.any,
-   maskAndNot d.chunks (s.content.bits d.chunks.length), d.exec⟩
+  ⟨d.whole && !s.whole, d.pos && !s.rename, d.kind && !s.content.any, d.exec⟩
 
 /-! ### shelf ids (`ShelfManager`) -/
 namespace Mgr
